@@ -12,6 +12,13 @@ TAG=$(echo "$VERIF_REPO" | md5sum | cut -c1-8)
 MODFILE=/verif/.build/go.$TAG.mod
 sed "s#=> /repo\$#=> $VERIF_REPO#" sim/go.mod > "$MODFILE"
 cp -f "$VERIF_REPO/go.sum" "/verif/.build/go.$TAG.sum"
+# goroutine starts of the packages under simulation become scheduling points: the go
+# statements of the CURRENT tree are rewritten into an overlay (the tree is not modified)
+[ -x /verif/.build/goyield ] || (cd /verif/tools/goyield && $VERIF_GO build -o /verif/.build/goyield .)
+GOY=/verif/.build/goy.$TAG
+find "$GOY" -type f -delete 2>/dev/null || true
+mkdir -p "$GOY"
+/verif/.build/goyield "$VERIF_REPO" "$GOY" /verif/.build/overlay/overlay.json "$GOY/overlay.json" $(cat /verif/bin/goyield.dirs) >/dev/null
 cd sim
-$VERIF_GO test -c -modfile="$MODFILE" -tags verif -vet=off -overlay /verif/.build/overlay/overlay.json -o "$OUT" .
+$VERIF_GO test -c -modfile="$MODFILE" -tags verif -vet=off -overlay "$GOY/overlay.json" -o "$OUT" .
 echo "$OUT"
